@@ -81,8 +81,17 @@ Section Conc.
     | h :: t, S j => h :: replace_nth t j x
     end.
 
-  (* the scheduler lets goroutine i take its next step (a blocked or finished goroutine does nothing) *)
-  Definition cstep (locked : bool) (c : cstate) (i : nat) : cstate :=
+  Definition holds (c : cstate) (i : nat) : bool :=
+    match lock c with Some h => Nat.eqb h i | None => false end.
+  Definition taken (c : cstate) : bool := match lock c with Some _ => true | None => false end.
+  Definition is_add (pc : mpc) : bool := match pc with MAdd _ => true | _ => false end.
+
+  (* the scheduler lets goroutine i take its next step (a blocked or finished goroutine does nothing).
+     locked  : Put takes c.putLock (fix C05-put-mutex) or not (the code before it);
+     outside : where inRadius sits relative to Lock().  false = as the code is: Lock() first, the radius check is the
+               first step inside; true = the check is made before Lock() (the seeded variant refuted below): the
+               goroutine starts with MCheck without the lock and acquires it when it reaches MAdd. *)
+  Definition cstep (locked outside : bool) (c : cstate) (i : nat) : cstate :=
     match nth_error (thrs c) i with
     | None => c
     | Some t =>
@@ -91,22 +100,31 @@ Section Conc.
             match todo t with
             | [] => c
             | (id, v) :: rest =>
-                if locked && (match lock c with Some _ => true | None => false end) then c      (* Lock() blocks *)
+                if outside then
+                  {| sh := sh c; lock := lock c;
+                     thrs := replace_nth (thrs c) i {| todo := rest; cur := Some (id, v, MCheck) |}; log := log c |}
+                else if locked && taken c then c                                                 (* Lock() blocks *)
                 else {| sh := sh c; lock := if locked then Some i else lock c;
                         thrs := replace_nth (thrs c) i {| todo := rest; cur := Some (id, v, MCheck) |};
                         log := log c ++ [(id, v)] |}
             end
-        | Some (id, v, MDone _) =>                                                             (* return; deferred Unlock() *)
-            {| sh := sh c; lock := if locked then None else lock c;
+        | Some (id, v, MDone _) =>                                                   (* return; deferred Unlock() *)
+            {| sh := sh c; lock := if locked && holds c i then None else lock c;
                thrs := replace_nth (thrs c) i {| todo := todo t; cur := None |}; log := log c |}
         | Some (id, v, pc) =>
-            let '(s', pc') := micro (sh c) id v pc in
-            {| sh := s'; lock := lock c;
-               thrs := replace_nth (thrs c) i {| todo := todo t; cur := Some (id, v, pc') |}; log := log c |}
+            if outside && locked && is_add pc && negb (holds c i) then
+              (* the check was made outside: Lock() here *)
+              if taken c then c
+              else {| sh := sh c; lock := Some i; thrs := thrs c; log := log c ++ [(id, v)] |}
+            else
+              let '(s', pc') := micro (sh c) id v pc in
+              {| sh := s'; lock := lock c;
+                 thrs := replace_nth (thrs c) i {| todo := todo t; cur := Some (id, v, pc') |}; log := log c |}
         end
     end.
 
-  Definition exec (locked : bool) (c : cstate) (sched : list nat) : cstate := fold_left (cstep locked) sched c.
+  Definition exec (locked outside : bool) (c : cstate) (sched : list nat) : cstate :=
+    fold_left (cstep locked outside) sched c.
 
   Definition quiescent (c : cstate) : bool :=
     forallb (fun t => match cur t, todo t with None, [] => true | _, _ => false end) (thrs c).
